@@ -16,6 +16,9 @@ MC:      spec/Arshal.tla is the documented type-directed mapping between Go valu
          rendering reads back through the byte automaton (ParseRender).
 Replay:  every (type, value, options) with the exact bytes the model predicts, on Marshal by
          pointer and by value (types and values built with reflect).
+TV:      (model) random types inside the modelled fragment (any nesting, up to 140 fields, tag
+         options, names needing escapes), random values; TLC (Trace_ArshalModel) recomputes the
+         exact bytes under 5 option sets with Deterministic.
 """
 
 
@@ -34,6 +37,10 @@ def run(ctx):
     D = 1 if ctx.quick else 2
     types = af.within(af.HAND + af.random_types(ctx.seed, 150 if ctx.quick else 1500), D, 400 if ctx.quick else 3000, 10 ** 9)
     m = af.run_model(ctx, "marshal", types, {"m"}, "C04", D=D)
+    # random types, values and sizes far beyond the enumerated universe, validated by TLC against
+    # the same model: the exact bytes Marshal returned
+    nm = 8000 if ctx.quick else 400000
+    ctx.tv("arshalmodel", "Trace_ArshalModel", {"seed": ctx.seed, "n": nm, "kinds": "m", "prop": "C04"})
     ctx.assumptions.append("Arshal model: bool, string, float64 (<= 15 significant digits), integers of 8..64 bits, slices, arrays, maps keyed by strings or integers, pointers, any, structs with omitzero/omitempty/string/case options; 6 marshal option sets")
     ctx.cov["distinct_nontrivial"] = n
     ctx.cov["rule"] = "random (type, value, option set) triples regenerated from logged seeds"
